@@ -19,6 +19,8 @@ func init() {
 		"tlb.parsetag":  exParseTag,
 		"tlb.fieldtag":  exFieldTag,
 		"tlb.dec":       exTlbDec,
+		"tlb.canon":     exTlbCanon,
+		"tlb.canoninfo": exTlbCanonInfo,
 		"go.rt":         goRoundTrip,
 		"go.redec":      goReDecode,
 		"go.stable":     goStable,
@@ -176,6 +178,7 @@ func genC03(g *h.G) {
 		}
 	}
 	genAbiBodies(g)
+	genNilPointers(g)
 	genTags(g)
 	genReal(g)
 }
